@@ -114,6 +114,9 @@ class C03(Prop):
             return {'out': self._ar_scalar(r, mx, my, px, py),
                     'flip_x': self._ar_scalar(r, -mx, my, px, py),
                     'flip_y': self._ar_scalar(r, mx, -my, px, py),
+                    # |X/Y| for X ~ N(mx, (px mx)^2), Y ~ N(my, (py my)^2) is unchanged when both modelled amplitudes are scaled together
+                    'scaled_down': self._ar_scalar(r, mx * 2.0 ** -20, my * 2.0 ** -20, px, py),
+                    'scaled_up': self._ar_scalar(r, mx * 2.0 ** 12, my * 2.0 ** 12, px, py),
                     'ratio_pdf_pos': float(self.pr.ratio_pdf(r, abs(mx), abs(my), abs(px or 1e-24) * abs(mx), abs(py or 1e-24) * abs(my))),
                     'ratio_pdf_neg': float(self.pr.ratio_pdf(-r, abs(mx), abs(my), abs(px or 1e-24) * abs(mx), abs(py or 1e-24) * abs(my)))}
         if k == 'ar-multi':
@@ -250,6 +253,14 @@ class C03(Prop):
                     if not (impl[key] == g or close(impl[key], g, atol=1e-9)):
                         out.append(('ar-sign', 'changing the sign of a modelled amplitude changed ln p from %r to %r' % (g, impl[key]), None))
                         break
+                if valid and not out and g > -600:
+                    kappa = 1.0 / case['px'] ** 2 + 1.0 / case['py'] ** 2
+                    for key in ('scaled_down', 'scaled_up'):
+                        v = impl[key]
+                        if not (v == g or close(v, g, rtol=1e-9, atol=1e-9 + 4e-15 * kappa)):
+                            out.append(('ar-scale', 'scaling both modelled amplitudes (%r, %r) by a common power of two changed ln p from %r to %r: the density of |X/Y| '
+                                        'with fractional errors depends on the amplitudes through their ratio only' % (case['mx'], case['my'], g, v), None))
+                            break
         elif k == 'ar-multi':
             got = impl['out']
             if any(math.isnan(v) or v == float('inf') for v in got):
